@@ -13,6 +13,7 @@
 //	stale41      deterministic parked schedule: sync compares the live offset with a stale size (F17b) (stale.go)
 //	jsonparsers  unit: k8s / logfmt parsers' record boundaries and offsets vs the line reader model  (jsonp.go)
 //	leak50       deterministic: rotated / truncated file whose last line has no newline (F50)        (leak.go)
+//	collector    the whole path collector.Run -> rpc client -> server with one server-side write failure (collect.go)
 //	gaps         deterministic: torn state file, file missing from one scan, stop while draining a rotated file,
 //	             replaced file regrown past the old offset (F60, F61, F62, F64)                       (gaps.go)
 package main
@@ -103,6 +104,9 @@ func main() {
 	}
 	replayCorpus()
 	rng := vh.NewRng(args.Seed)
+	// the collector path sleeps a real 5 s: it runs next to the other sections (no hooks, its own server)
+	colDone := make(chan struct{})
+	go func() { defer close(colDone); sectionCollector() }()
 	sectionLineReader(rng.Fork("linereader"))
 	sectionDescs(rng.Fork("descs"))
 	sectionJsonParsers(rng.Fork("jsonparsers"))
@@ -113,5 +117,6 @@ func main() {
 	sectionStale41()
 	sectionLeak50()
 	sectionGaps()
+	<-colDone
 	res.Write(args.Out)
 }
